@@ -119,9 +119,13 @@ def _chunk(task):
 
 
 def PROOFS():
-    from ..contracts import call_resolver_c, transforms_c, variable_c, matrices_c, terms_c, utils_c   # noqa: F401
+    from ..contracts import call_resolver_c, transforms_c, variable_c, matrices_c, terms_c, utils_c, call_newdata_c, offset_c   # noqa: F401
     T = "formulae.transforms."
     return [("vf.contracts.call_resolver_c", ["formulae.terms.call_resolver.LazyCall.eval"]),
+            # categorical call terms at prediction: the remembered levels and contrast rows, applied to the call's value on the new frame
+            ("vf.contracts.call_newdata_c", call_newdata_c.FUNCTIONS),
+            # a constant offset at prediction: re-broadcast over the rows of the NEW frame
+            ("vf.contracts.offset_c", ["formulae.terms.call.Call.eval_new_data_offset", "formulae.terms.call.Call.eval_new_data#offset"]),
             # the containers: new data are evaluated term by term with the remembered terms, into a new object with the same slices
             ("vf.contracts.matrices_c", ["formulae.matrices.CommonEffectsMatrix.evaluate_new_data", "formulae.matrices.GroupEffectsMatrix.evaluate_new_data"]),
             ("vf.contracts.terms_c", ["formulae.terms.terms.GroupSpecificTerm.eval_new_data"]), ("vf.contracts.utils_c", utils_c.FUNCTIONS),
